@@ -61,7 +61,9 @@ type FaultSpec struct {
 
 func (f FaultSpec) String() string { return fmt.Sprintf("%s#%d/%s", f.Site, f.Nth, f.Mode) }
 
-func (f FaultSpec) IsGauge() bool { return f.Site == "mem" || f.Site == "comp" || f.Site == "gauge" }
+func (f FaultSpec) IsGauge() bool {
+	return f.Site == "mem" || f.Site == "comp" || f.Site == "gauge" || f.Site == "memsum" || f.Site == "compsum"
+}
 
 // ---------------------------------------------------------------------------------------------
 // trace
@@ -224,6 +226,7 @@ type Host struct {
 	Gauge       []uint64
 	GaugeN      int
 	MemN, CompN int
+	MemSum, CompSum uint64 // cumulative metered amounts / intensities (limits of real hosts are weighted sums)
 	gaugeHash   uint64
 	Fired       []string // which fault specs fired (spec string @ global seq)
 	FiredSeq    int      // global callback index at which the first fault fired (-1)
@@ -259,6 +262,7 @@ func (h *Host) Begin(signers []runtime.Address, faults []FaultSpec) {
 	h.Faults = faults
 	h.Trace, h.Writes, h.Logs, h.Events, h.EventsJSON, h.EventIssues, h.Gauge, h.Fired = nil, nil, nil, nil, nil, nil, nil, nil
 	h.GaugeN, h.MemN, h.CompN, h.gaugeHash = 0, 0, 0, 14695981039346656037
+	h.MemSum, h.CompSum = 0, 0
 	h.FiredSeq, h.FiredGauge = -1, -1
 	h.kindCount = map[string]int{}
 	h.memTripped, h.compTripped = false, false
@@ -993,9 +997,11 @@ func (h *Host) gauge(tag uint64, kind uint64, amount uint64, isMem bool) error {
 	if isMem {
 		ni = h.MemN
 		h.MemN++
+		h.MemSum += amount
 	} else {
 		ni = h.CompN
 		h.CompN++
+		h.CompSum += amount
 	}
 	x := tag<<60 | (kind&0xfff)<<48 | (amount & 0xffffffffffff)
 	h.gaugeHash = (h.gaugeHash ^ x) * 1099511628211
@@ -1020,6 +1026,10 @@ func (h *Host) gauge(tag uint64, kind uint64, amount uint64, isMem bool) error {
 			hit = isMem && f.Nth == ni
 		case "comp":
 			hit = !isMem && f.Nth == ni
+		case "memsum":
+			hit = isMem && h.MemSum > uint64(f.Nth)
+		case "compsum":
+			hit = !isMem && h.CompSum > uint64(f.Nth)
 		}
 		if hit {
 			if h.FiredGauge < 0 {
